@@ -376,6 +376,7 @@ func main() {
 	checkHandshake(run, rp, smp)
 	exhaustive := checkWT(run, rp, smp)
 	checkLimits(run, rp, smp)
+	checkWTE2E(run, rp, smp)
 	checkFuzz(run, rp, smp)
 	checkAlloc(run, rp, smp)
 
